@@ -493,15 +493,11 @@ func c07KeyOrder(c *Ctx) {
 	for _, b := range fn.Blocks {
 		for _, in := range b.Instrs {
 			if mu, ok := in.(*ssa.MapUpdate); ok {
-				// the map that is returned as result 0 (named result kvps)
-				if mk, ok := Unwrap(mu.Map).(*ssa.MakeMap); ok && mk.Comment != "" || true {
-					// choose the update whose key is compared with pointerKeys[line]
-					if store == nil || strings.Contains(mu.Map.Name(), "kvps") {
-						// decide below by the guard
-					}
-					pass := keyEqExpectedEdges(p, fn, mu.Key)
-					if len(pass) > 0 {
-						store = mu
+				if pass := keyEqExpectedEdges(p, fn, mu.Key); len(pass) > 0 {
+					if l := LoopOf(Loops(fn), mu.Block()); l != nil {
+						if g, _ := Guarded(l.Body, mu, pass, nil); g {
+							store = mu
+						}
 					}
 				}
 			}
